@@ -152,21 +152,10 @@ impl Walk {
             }
         }
         match l {
-            Literal::Float(f) => match float_display_int(*f) {
-                Some(Some(k)) => {
-                    self.hits.insert("T:fmt-float");
-                    if self.apply {
-                        *l = Literal::Int(k);
-                    }
-                }
-                Some(None) => {
-                    self.hits.insert("F:fmt-float");
-                }
-                None => {}
-            },
-            Literal::Bytes(b) => {
-                if b.iter().any(|c| *c == b'"' || *c == b'\\') {
-                    self.hits.insert("F:fmt-bytes-escape");
+            Literal::Float(f) => {
+                // a literal such as 1e999 lexes to infinity, which is printed `inf` (an identifier)
+                if !f.is_finite() {
+                    self.hits.insert("F:fmt-float-nonfinite");
                 }
             }
             _ => {}
@@ -181,31 +170,13 @@ impl Walk {
                 ps.iter_mut().for_each(|a| self.ty(a));
                 self.ty(r);
             }
-            Type::Unit => {
-                self.hits.insert("T:fmt-unit-type");
-                if self.apply {
-                    t.node = Type::Simple("None".to_string());
-                }
-            }
-            Type::Tuple(ts) => {
-                ts.iter_mut().for_each(|a| self.ty(a));
-                self.hits.insert("T:fmt-tuple-type");
-                if self.apply {
-                    let ts = std::mem::take(ts);
-                    t.node = Type::Generic("Tuple".to_string(), ts);
-                }
-            }
+            Type::Unit => {}
+            Type::Tuple(ts) => ts.iter_mut().for_each(|a| self.ty(a)),
         }
     }
 
     fn params(&mut self, ps: &mut Vec<Spanned<Param>>) {
         for p in ps.iter_mut() {
-            if p.node.is_mut {
-                self.hits.insert("T:fmt-mut-param");
-                if self.apply {
-                    p.node.is_mut = false;
-                }
-            }
             self.ty(&mut p.node.ty);
             if let Some(d) = &mut p.node.default {
                 self.expr(d);
@@ -246,16 +217,7 @@ impl Walk {
             Pattern::Wildcard | Pattern::Binding(_) => {}
             Pattern::Literal(l) => self.lit(l),
             Pattern::Constructor(name, ps) => {
-                if name.contains("::") {
-                    self.hits.insert("F:fmt-qualified-pattern");
-                } else if ps.is_empty() {
-                    // `Foo()` is printed `Foo`, which re-parses as a binding
-                    self.hits.insert("T:fmt-empty-constructor-pattern");
-                    if self.apply {
-                        p.node = Pattern::Binding(name.clone());
-                        return;
-                    }
-                }
+                let _ = name;
                 ps.iter_mut().for_each(|q| self.pattern(q));
             }
             Pattern::Tuple(ps) => ps.iter_mut().for_each(|q| self.pattern(q)),
@@ -479,10 +441,7 @@ impl Walk {
                 match a {
                     DecoratorArg::Positional(e) => self.expr(e),
                     DecoratorArg::Named(_, DecoratorArgValue::Expr(e)) => self.expr(e),
-                    DecoratorArg::Named(_, DecoratorArgValue::Type(t)) => {
-                        self.hits.insert("M:fmt-decorator-type-arg");
-                        self.ty(t);
-                    }
+                    DecoratorArg::Named(_, DecoratorArgValue::Type(t)) => self.ty(t),
                 }
             }
         }
@@ -531,9 +490,6 @@ impl Walk {
             }
             Declaration::Newtype(n) => {
                 self.ty(&mut n.underlying);
-                if !n.methods.is_empty() {
-                    self.hits.insert("F:fmt-newtype-methods");
-                }
                 n.methods.iter_mut().for_each(|x| self.method(x));
             }
             Declaration::Enum(e) => {
@@ -543,12 +499,6 @@ impl Walk {
             }
             Declaration::Function(f) => {
                 self.decorators(&mut f.decorators);
-                if !f.type_params.is_empty() {
-                    self.hits.insert("T:fmt-type-params");
-                    if self.apply {
-                        f.type_params.clear();
-                    }
-                }
                 self.params(&mut f.params);
                 self.ty(&mut f.return_type);
                 self.block(&mut f.body);
@@ -802,17 +752,28 @@ fn op_decls(src: &str, want_text: bool) -> Value {
         Err(e) => wj["fmt"] = json!(format!("error: {}", e)),
         Ok(text) => {
             // compositionality: format_program = declarations joined by the blank-line policy + "\n"
+            // each declaration ends its own last line (plus one blank line per trailing `match`, which is
+            // trimmed only at the end of the file)
             let mut joined = String::new();
             let mut prev_doc = false;
+            let n = prog.declarations.len();
             for (i, d) in prog.declarations.iter().enumerate() {
                 if i > 0 {
                     joined.push_str(if prev_doc { "\n" } else { "\n\n" });
                 }
                 prev_doc = matches!(d.node, Declaration::Docstring(_));
                 let t = fmt_prog(&Program { declarations: vec![d.clone()] });
-                joined.push_str(t.strip_suffix('\n').unwrap_or(&t));
+                joined.push_str(t.trim_end_matches('\n'));
+                joined.push('\n');
+                if i + 1 < n {
+                    for _ in 0..decl_trail(&d.node) {
+                        joined.push('\n');
+                    }
+                }
             }
-            joined.push('\n');
+            if joined.trim_matches('\n').is_empty() {
+                joined.clear();
+            }
             wj["compositional"] = json!(joined == text);
             wj["hyg"] = hygiene(&text);
             wj["check_formatted_src"] = json!(incan::check_formatted(src).ok());
